@@ -5,6 +5,7 @@ package main
 
 import (
 	"fmt"
+	"go/token"
 	"go/types"
 	"os"
 	"path/filepath"
@@ -421,4 +422,41 @@ func writeFile(path, content string) {
 
 func sortResults(rs []*OblResult) {
 	sort.SliceStable(rs, func(i, j int) bool { return rs[i].O.Name < rs[j].O.Name })
+}
+
+// genLemmas: the standalone lemmas of the contract files (pure SMT goals).
+func genLemmas(prog *ssa.Program, cs *Contracts, id string) *FuncReport {
+	rep := &FuncReport{Func: "lemma", Key: "lemma", Props: map[string]bool{}}
+	for _, lm := range cs.Lemmas {
+		serves := false
+		for _, p := range lm.Props {
+			if p == id || id == "" {
+				serves = true
+			}
+		}
+		if !serves {
+			continue
+		}
+		c := newCtx(prog, cs)
+		c.topName = "lemma"
+		func() {
+			defer func() {
+				if r := recover(); r != nil {
+					if e, ok := r.(vcError); ok {
+						rep.Err = lm.Label + ": " + e.msg
+						return
+					}
+					panic(r)
+				}
+			}()
+			st := &State{reach: tTrue, heaps: map[string]T{}, cells: map[string]Val{}, alloc: intLit(1)}
+			for _, ax := range cs.Axioms {
+				c.assume(tTrue, c.evalBool(&Env{c: c, st: st, names: map[string]Val{}}, ax.Expr))
+			}
+			g := c.evalBool(&Env{c: c, st: st, names: map[string]Val{}}, lm.Expr)
+			c.oblige(st, "lemma", lm.Label, lm.Props, g, token.NoPos, "lemma: "+lm.Src)
+		}()
+		rep.Obls = append(rep.Obls, c.obls...)
+	}
+	return rep
 }
